@@ -810,6 +810,8 @@ struct Gen {
     next_id: u32,
     sparse: bool,
     tx_rate: u64,
+    /// number of the first block of every chain of this history (0 or 1)
+    first_number: u64,
 }
 
 impl Gen {
@@ -817,7 +819,7 @@ impl Gen {
         let mut out = vec![];
         let (mut number, mut slot) = match after {
             Some(b) => (b.number, b.slot),
-            None => (if rng.bool() { 0 } else { u64::MAX }, 0), // first block numbered 1 or 0
+            None => (self.first_number.wrapping_sub(1), 0),
         };
         for _ in 0..n {
             number = number.wrapping_add(if self.sparse && rng.chance(1, 6) { rng.range(2, 20) } else { 1 });
@@ -869,24 +871,82 @@ impl Gen {
     }
 }
 
-fn gen_history(rng: &mut Rng, thorough: bool) -> History {
+#[derive(Clone, Copy, PartialEq)]
+enum Mode {
+    /// no trigger of a recorded class is generated on purpose: targets at or below the tip, chain
+    /// switches to longer chains only, restarts only while the stored tip is on the node's chain
+    Clean,
+    /// clean + pruning
+    Prune,
+    /// anything
+    Wild,
+}
+
+fn gen_history(rng: &mut Rng, thorough: bool) -> (History, Mode) {
+    let mode = match rng.below(20) {
+        0..=11 => Mode::Clean,
+        12..=14 => Mode::Prune,
+        _ => Mode::Wild,
+    };
+    let wild = mode == Mode::Wild;
     let max_per_poll = *rng.pick(&[1usize, 2, 3, 5, 10, 30, 100]);
-    let mut g = Gen { chain: vec![], next_id: 1, sparse: rng.chance(1, 6), tx_rate: *rng.pick(&[0u64, 10, 40, 80]) };
-    let pruning = rng.chance(1, 5);
+    let mut g = Gen { chain: vec![], next_id: 1, sparse: rng.chance(1, 6), tx_rate: *rng.pick(&[0u64, 10, 40, 80]), first_number: rng.below(2) };
     let mut events = vec![];
     let n_events = rng.range(5, if thorough { 80 } else { 40 }) as usize;
     let max_chain = 120usize;
     let first = rng.range(1, 50) as usize;
     events.push(Event::Mutate(g.grow(rng, first)));
     let mut imported_hi: u64 = 0;
+    let mut imported_any = false;
     let mut last_target: u64 = 0;
+    // the stored tip may have been abandoned by the node since the last scan
+    let mut stale = false;
+    // no scan yet since the last restart / reconnection
+    let mut fresh_conn = false;
+    // a switch: to a longer chain unless wild
+    let do_switch = |g: &mut Gen, rng: &mut Rng, imported_hi: u64, wild: bool, fresh_conn: bool| -> (Mutation, bool) {
+        let mut keep = g.pick_keep(rng, imported_hi).min(g.chain.len());
+        if !wild && keep == 0 && imported_hi > 0 {
+            // replacing the whole chain makes the node roll back to the origin, below every stored block
+            keep = 1;
+        }
+        if fresh_conn && !wild {
+            // a new connection can only intersect at the stored tip: it must still be on the node's chain
+            keep = keep.max(g.chain.iter().position(|b| b.number > imported_hi).unwrap_or(g.chain.len()));
+        }
+        let removes_imported = g.chain[keep..].iter().any(|b| b.number <= imported_hi);
+        let removed = g.chain.len() - keep;
+        let n = if wild {
+            if rng.chance(1, 8) { 0 } else { rng.range(1, 25) as usize }
+        } else {
+            removed + rng.range(1, 6) as usize
+        };
+        let n = n.min((max_chain + 20).saturating_sub(keep));
+        let old_tip = g.tip();
+        let mut m = g.switch(rng, keep, n);
+        if !wild {
+            // the node only adopts a chain that is longer in block number
+            let mut guard = 0;
+            while g.tip() <= old_tip && guard < 200 {
+                guard += 1;
+                let last = g.chain.last().cloned();
+                let more = g.new_blocks(rng, last.as_ref(), 1);
+                g.chain.extend(more.iter().cloned());
+                if let Mutation::Switch { blocks, .. } = &mut m {
+                    blocks.extend(more);
+                }
+            }
+        }
+        (m, removes_imported)
+    };
     for _ in 0..n_events {
         let room = max_chain.saturating_sub(g.chain.len());
         let w = rng.below(100);
-        if w < 34 {
+        if w < 36 {
             // import
             let tip = g.tip();
-            let target = match rng.below(12) {
+            let above = imported_hi + 1;
+            let mut target = match rng.below(14) {
                 0 => tip,
                 1 => tip.saturating_sub(rng.below(10)),
                 2 => tip + rng.range(1, 30),
@@ -897,8 +957,13 @@ fn gen_history(rng: &mut Rng, thorough: bool) -> History {
                 7 => tip / 15 * 15 + 1,
                 8 => imported_hi + rng.range(1, 2 * max_per_poll as u64 + 1),
                 9 => imported_hi + max_per_poll as u64,
-                _ => rng.range(imported_hi, tip.max(imported_hi) + 3),
+                10 => ((above / 15 + 1) * 15).saturating_sub(rng.below(3)),
+                11 => rng.range(0, tip + 2),
+                _ => rng.range(above.min(tip), tip.max(above)),
             };
+            if !wild {
+                target = target.min(tip);
+            }
             let mut mid = vec![];
             if rng.chance(2, 5) {
                 // reply indices first, then the mutations in the order the simulator applies them
@@ -910,38 +975,56 @@ fn gen_history(rng: &mut Rng, thorough: bool) -> History {
                         let n = rng.range(1, room.min(12) as u64) as usize;
                         g.grow(rng, n)
                     } else {
-                        let keep = g.pick_keep(rng, imported_hi);
-                        let room = max_chain.saturating_sub(keep);
-                        let n = rng.below(room.min(10) as u64 + 1) as usize;
-                        g.switch(rng, keep, n)
+                        let early_gen = imported_any && target <= imported_hi;
+                        let (m, removes) = do_switch(&mut g, rng, imported_hi.max(target.min(tip)), wild, fresh_conn && early_gen);
+                        if removes {
+                            stale = true;
+                        }
+                        m
                     };
                     mid.push((at, m));
                 }
             }
+            let had_mid_switch = mid.iter().any(|m| matches!(m.1, Mutation::Switch { .. }));
             events.push(Event::Import { target, mid });
-            imported_hi = imported_hi.max(target.min(g.tip()));
+            if target > imported_hi || !imported_any {
+                fresh_conn = false;
+                // a real scan: the store follows the node (unless a switch came in after the scan ended)
+                if !had_mid_switch {
+                    stale = false;
+                }
+                imported_hi = imported_hi.max(target.min(g.tip()));
+                imported_any = true;
+            }
             last_target = target;
-        } else if w < 58 {
+        } else if w < 60 {
             if room > 0 {
                 let n = (*rng.pick(&[1u64, 1, 2, 5, 14, 15, 16, 31, 60, 100])).min(room as u64) as usize;
                 events.push(Event::Mutate(g.grow(rng, n)));
             }
         } else if w < 80 {
-            let keep = g.pick_keep(rng, imported_hi);
-            let room = max_chain.saturating_sub(keep);
-            let n = if rng.chance(1, 8) { 0 } else { rng.range(1, room.min(25).max(1) as u64) as usize };
-            events.push(Event::Mutate(g.switch(rng, keep, n.min(room))));
+            let (m, removes) = do_switch(&mut g, rng, imported_hi, wild, fresh_conn && imported_any);
+            if removes && imported_any {
+                stale = true;
+            }
+            events.push(Event::Mutate(m));
         } else if w < 89 {
-            events.push(Event::Restart);
+            if wild || !stale {
+                events.push(Event::Restart);
+                fresh_conn = true;
+            }
         } else if w < 93 {
-            events.push(Event::Reconnect);
-        } else if pruning {
+            if wild || !stale {
+                events.push(Event::Reconnect);
+                fresh_conn = true;
+            }
+        } else if mode == Mode::Prune || (wild && rng.chance(1, 4)) {
             events.push(Event::Prune(*rng.pick(&[0u64, 1, 15, 20, 30, 60])));
         }
     }
     // end with an import to the tip so that the last state is a quiescent one
     events.push(Event::Import { target: g.tip(), mid: vec![] });
-    History { max_per_poll, await_sem: rng.bool(), events }
+    (History { max_per_poll, await_sem: rng.bool() && !g.sparse, events }, mode)
 }
 
 // ------------------------------------------------------------------------------ witnesses (corpus)
@@ -1129,10 +1212,20 @@ fn main() {
     let (mut s1, mut s2, mut tainted) = (0u64, 0u64, 0u64);
     for i in 0..n {
         let mut r = rng.fork();
-        let h = gen_history(&mut r, args.thorough());
+        let (h, mode) = gen_history(&mut r, args.thorough());
         if !sink.wanted() {
             sink.skip();
             continue;
+        }
+        if std::env::var("C13_DEBUG").is_ok() {
+            for e in &h.events {
+                match e {
+                    Event::Mutate(Mutation::Grow(b)) => eprintln!("grow {:?}", b.iter().map(|x| (x.id, x.number, x.slot)).collect::<Vec<_>>()),
+                    Event::Mutate(Mutation::Switch { keep, blocks }) => eprintln!("switch keep={} {:?}", keep, blocks.iter().map(|x| (x.id, x.number, x.slot)).collect::<Vec<_>>()),
+                    Event::Import { target, mid } => eprintln!("import {} mid={:?}", target, mid.iter().map(|(a, m)| (a, match m { Mutation::Grow(b) => format!("grow{}", b.len()), Mutation::Switch { keep, blocks } => format!("switch keep={} n={}", keep, blocks.len()) })).collect::<Vec<_>>()),
+                    other => eprintln!("{:?}", other),
+                }
+            }
         }
         let plan = SPlan { every: i % 10 == 0, beacons: if i % 3 == 0 { 2 } else { 0 } };
         let o = run_history(&env, &h, &mut r, plan);
@@ -1144,9 +1237,14 @@ fn main() {
         if o.taint.is_some() {
             tainted += 1;
         }
+        let mode = match mode {
+            Mode::Clean => "clean",
+            Mode::Prune => "prune",
+            Mode::Wild => "wild",
+        };
         let tag = match &o.taint {
-            Some(t) => format!("hist-{}", t),
-            None => "hist-good".to_string(),
+            Some(t) => format!("{}-{}", mode, t),
+            None => format!("{}-good", mode),
         };
         emit(&mut sink, &tag, &o, &format!("history {} (seed {}): {}", i, args.seed, o.req), args.only);
     }
